@@ -238,7 +238,9 @@ def finish(rep, t0, level, explanation, trusted, checker_cmd, seed):
         'wall_s': round(wall, 3),
         'violations': len(new),
     }
-    json.dump(ev, open(os.path.join(VERIF, 'evidence', rep.pid + '.json'), 'w'), indent=1)
+    evdir = os.path.join(CACHE, 'scratch-evidence') if (os.environ.get('VERIF_SCRATCH') or REPO != '/repo') else os.path.join(VERIF, 'evidence')
+    os.makedirs(evdir, exist_ok=True)
+    json.dump(ev, open(os.path.join(evdir, rep.pid + '.json'), 'w'), indent=1)
     for l in lines:
         print(l)
     if new:
